@@ -1865,10 +1865,12 @@ def expected_sparse(spec, objs):
 
 
 def index_class(b):
-    for k in POW2:
-        if b < 2 ** k - 1:
-            return "bin-index-below-2^%d-1" % k
-    return "bin-index-from-2^16-1"
+    """the range between two powers of two (minus one: the digitize index is bin + 1) the bin lies in"""
+    bounds = [0] + [2 ** k - 1 for k in POW2]
+    for lo, hi in zip(bounds, bounds[1:]):
+        if b < hi:
+            return "bin-in-[%d,%d)" % (lo, hi)
+    return "bin-from-%d" % bounds[-1]
 
 
 def sparse_diff(want, got, weights_only=False):
